@@ -6,10 +6,12 @@ package token
 //@ ginv_table tokens
 //@ ginv keywordsTable := keywords != nil &&
 //@      (forall k in int(keyword_beg)+1..int(keyword_end) :: has(keywords, tokens[k]) && int(keywords[tokens[k]]) == k)
+//@ ginv keywordsRange := forall w string :: has(keywords, w) ==> keyword_beg < keywords[w] && keywords[w] < keyword_end
 //@
 //@ loop init#1#1
 //@   invariant keywords != nil && keyword_beg < i && i <= keyword_end
 //@   invariant forall k in int(keyword_beg)+1..int(i) :: has(keywords, tokens[k]) && int(keywords[tokens[k]]) == k
+//@   invariant forall w string :: has(keywords, w) ==> keyword_beg < keywords[w] && keywords[w] < keyword_end
 //@   decreases int(keyword_end) - int(i)
 //@
 //@ func (Token).String
@@ -37,4 +39,5 @@ package token
 //@   pure
 //@   ensures [hit] has(keywords, ident) ==> result == keywords[ident]
 //@   ensures [miss] !has(keywords, ident) ==> result == IDENT
+//@   ensures [range] result == IDENT || (keyword_beg < result && result < keyword_end)
 //@   ensures [kw] forall k in int(keyword_beg)+1..int(keyword_end) :: ident == tokens[k] ==> int(result) == k
